@@ -69,6 +69,7 @@ func TestBookingIntersects(t *testing.T) {
 		ch := m.PullBookings(ctx, resource.WithInclude(include), resource.WithBackpressure(backpressure))
 		view := map[string]*traits.Booking{}
 		done := make(chan string, 1)
+		synced := make(chan struct{})
 		go func() {
 			for {
 				select {
@@ -95,6 +96,14 @@ func TestBookingIntersects(t *testing.T) {
 							done <- ""
 							return
 						}
+						if e.NewValue.Id == "zy-sync" {
+							select {
+							case <-synced:
+							default:
+								close(synced)
+							}
+							continue
+						}
 						view[e.NewValue.Id] = e.NewValue
 					}
 				case <-time.After(15 * time.Second):
@@ -103,6 +112,19 @@ func TestBookingIntersects(t *testing.T) {
 				}
 			}
 		}()
+		// the model subscribes inside its forwarding goroutine: wait until the subscription demonstrably exists (a booking
+		// that always intersects comes through) so that the history below is written by one writer with the subscriber
+		// in place. Writes racing the act of subscribing are C03's subject, not this property's.
+		if _, err := m.CreateBooking(&traits.Booking{Id: "zy-sync", Booked: &timepb.Period{}}); err != nil {
+			t.Fatalf("sync booking: %v", err)
+		}
+		select {
+		case <-synced:
+		case msg := <-done:
+			t.Fatalf("the stream ended before the sync booking arrived: %s", msg)
+		case <-time.After(20 * time.Second):
+			t.Fatalf("the sync booking never arrived on PullBookings")
+		}
 		n := rapid.IntRange(1, 8).Draw(t, "steps")
 		transitions := 0
 		for i := 0; i < n; i++ {
@@ -136,8 +158,13 @@ func TestBookingIntersects(t *testing.T) {
 			t.Fatalf("ListBookings: %v", err)
 		}
 		var listed []string
+		var listedBookings []*traits.Booking
 		for _, b := range resp.Bookings {
+			if b.Id == "zy-sync" {
+				continue
+			}
 			listed = append(listed, b.Id)
+			listedBookings = append(listedBookings, b)
 		}
 		desc := fmt.Sprintf("query=[%d,%d) bookings=%v backpressure=%v", qlo, qhi, model, backpressure)
 		if fmt.Sprint(listed) != fmt.Sprint(want) {
@@ -158,7 +185,7 @@ func TestBookingIntersects(t *testing.T) {
 		if fmt.Sprint(folded) != fmt.Sprint(want) {
 			t.Fatalf("%s: folding PullBookings gives %v, ListBookings gives %v", desc, folded, want)
 		}
-		for _, b := range resp.Bookings {
+		for _, b := range listedBookings {
 			if !proto.Equal(view[b.Id], b) {
 				t.Fatalf("%s: folded booking %q = %v, listed %v", desc, b.Id, view[b.Id], b)
 			}
